@@ -77,19 +77,19 @@ def run(ctx):
     cr = ru.need(ctx, "C07-a", "h3::client::stream::RequestStream::recv_response::{closure#0}")
     if cr:
         ps = [p for p in ru.all_paths(ctx, "C07-a", cr, max_visits=1) if p.end == "return"]
-        mal = [p for p in ps if p.ret_shape() == "Residual(call:map_err)" and p.has_call("h3::qpack::decoder::decode_stateless")]
+        # a path on which one of the message validators answered Err (however that result was taken apart)
+        mal = [p for p in ps if p.outcomes("::try_from")[-1:] == ["Err"] or p.outcomes("into_response_parts")[-1:] == ["Err"]]
         ctx.floor("C07-a", "malformed-response returns", len(mal), 2)
         for p in mal:
             codes = pa.path_codes(prog, p)
-            cc = pa.closure_calls(prog, p, "stop_sending")
+            cc = pa.closure_calls(prog, p, "stop_sending") or p.calls("stop_sending")
             ok = not fatal_in(prog, p) and "H3_MESSAGE_ERROR" in codes and bool(cc)
             ctx.check(ok, "C07-a", cr.key, "malformed response -> stream error H3_MESSAGE_ERROR, stop_sending, not fatal",
                       "a malformed response leads to codes %s fatal=%s stop_sending=%s" % (sorted(codes), fatal_in(prog, p), bool(cc)), "", None, p.describe())
     tr = ru.need(ctx, "C07-a", "h3::connection::RequestStream::poll_recv_trailers")
     if tr:
         ps = [p for p in ru.all_paths(ctx, "C07-a", tr, max_visits=1) if p.end == "return"]
-        mal = [p for p in ps if p.has_call("h3::qpack::decoder::decode_stateless") and (p.ret_shape().startswith("Residual") or
-               (p.ret_shape().startswith("Ready(Err(") and "Ok" in [lab for n_, lab, _ in p.variant_tests("decoder::decode_stateless") if not n_]))]
+        mal = [p for p in ps if p.outcomes("decoder::decode_stateless")[-1:] == ["Ok"] and p.outcomes("::try_from")[-1:] == ["Err"]]
         ctx.floor("C07-a", "malformed-trailers returns", len(mal), 1)
         for p in mal:
             codes = pa.path_codes(prog, p)
